@@ -129,6 +129,12 @@ def check_repeat(ctx):
         idx = e.data['index']
         # the copy written in iteration j: i(j) = slice start / n; it has to run through 1, 2, ..., repeats - 1
         i = idx.args[0].r / L
+        carried = [str(t_)[:60] for t_ in walk_vals(Num(i)) if isinstance(t_, Term) and t_.head in ('loopvar', 'loopstate', 'stored', 'mutated')]
+        if carried:
+            # the position written is kept in loop-carried state (a cursor advanced by the loop): not a function of the loop variable this rule can read
+            ctx.unknown('C12.2', inst + ': the loop shifts copy 1, 2, ..., repeats - 1, each once (copy 0 is never shifted)',
+                        f"the slice start depends on loop-carried state {carried[:2]}: construction not recognised", e.loc(), fi.qualname, 'copies')
+            return
         i_first = sym.subst(i, {_atom1(j): lp.lo})
         i_last = sym.subst(i, {_atom1(j): lp.hi - C(1)})
         step_ok = sym.subst(i, {_atom1(j): j + C(1)}) - i == C(1)
